@@ -21,7 +21,7 @@ Sub-checks (each case replayable from its `case_seed`):
 Run: cd /verif && PYTHONPATH=/repo PYTHONHASHSEED=0 /venv/bin/python harness/oracle_C15.py --tier quick --seed 0 --out F
 (the same file is its own child: `oracle_C15.py --child JSON`)
 """
-import os, sys, json, shutil, signal, subprocess, traceback, contextlib, io, logging
+import os, sys, json, shutil, signal, subprocess, traceback, contextlib, io, logging, copy
 
 sys.path.insert(0, os.path.dirname(os.path.abspath(__file__)))
 from common import *  # noqa: E402,F401
@@ -480,6 +480,10 @@ def check_history(rec, rng, inp, forced_ops=None, use_child=False, bk=None, cfg=
                 d = dict(cfg=cfg, mseed=mseed, mode=mode, path=path, mean=mean, sigma=sigma, kill_at=op["kill_at"],
                          np_seed=seeds[i], op={k: op[k] for k in ("kind", "nw", "nb", "nr")})
                 rc, err = run_child(d)
+                if rc == 1:
+                    rec.check(False, "C15:history:raises", "mcmc_emcee raised in the child process before the kill point (%s)" % tag,
+                              inp_i, err[-300:])
+                    return
                 if rc != -signal.SIGKILL:
                     rec.error("child did not die by SIGKILL (rc=%s): %s" % (rc, err))
                     return
@@ -494,6 +498,28 @@ def check_history(rec, rng, inp, forced_ops=None, use_child=False, bk=None, cfg=
                               inp_i, repr(e))
                     return
             else:
+                # independent reference for a completed continued run: emcee's own contract on a COPY of the store --
+                # the continuation is a deterministic function of the stored state (last positions + stored RNG state)
+                ref_new = None
+                if op["kind"] == "cont" and not op.get("stop_at") and (mode == "fixed" or rng.random() < 0.3):
+                    try:
+                        if bk == "hdf":
+                            cpath = path + ".copy"
+                            shutil.copyfile(path, cpath)
+                            bcopy = emcee.backends.HDFBackend(cpath)
+                        else:
+                            bcopy = copy.deepcopy(be)
+                        smp = emcee.EnsembleSampler(op["nw"], nd, S.chain.likelihood, backend=bcopy)
+                        quiet(smp.run_mcmc, None, op["nb"] + op["nr"], progress=False)
+                        ref_new = (np.array(bcopy.get_chain()[k0:], copy=True), np.array(bcopy.get_log_prob()[k0:], copy=True))
+                        if bk == "hdf":
+                            os.remove(cpath)
+                    except ValueError as e:
+                        ref_new = None  # emcee's in-memory left-over allocation problem (see REPORT_INMEMORY_GROW); handled below
+                        if "negative dimensions" not in str(e):
+                            rec.error("reference continuation failed: " + traceback.format_exc(limit=3))
+                    except Exception:
+                        rec.error("reference continuation failed: " + traceback.format_exc(limit=3))
                 try:
                     status, out = run_op(S, C, op, be, mean, sigma, seeds[i])
                 except Exception as e:
@@ -533,6 +559,11 @@ def check_history(rec, rng, inp, forced_ops=None, use_child=False, bk=None, cfg=
                     rec.check(tail_ok, "C15:history:returned_tail",
                               "the last n_run*n_walkers returned rows are not the last n_run stored iterations", inp_i, fs.shape)
                 new_c, new_l = c1[k0:], l1[k0:]
+                if status == "done" and ref_new is not None:
+                    rec.check(new_c.shape == ref_new[0].shape and np.array_equal(new_c, ref_new[0]) and np.array_equal(new_l, ref_new[1]),
+                              "C15:history:not_continued_from_store",
+                              "appended iterations differ from emcee continuing the same store (p0=None, stored RNG state): "
+                              "the run did not start from the last stored state", inp_i)
             else:
                 if status == "done":
                     rec.check(k1 == n_req and c1.shape == (n_req, op["nw"], nd), "C15:history:fresh_not_reset",
